@@ -53,8 +53,16 @@ def playback(prop, r, group):
     harnesses is the macro definition: every expansion then defines the same test and the crate no
     longer compiles.)  The counterexample reproduces if at least one of the tests fails natively."""
     spec = r["spec"]
-    res = kanirun.run_job(group, r["harness"], mode=spec.mode, timeout_s=spec.timeout * 3, mem_gb=max(spec.mem + 6, 36), fs=spec.fs,
+    # with --concrete-playback CBMC produces a trace per property: a harness with ~700 default checks costs
+    # ~700 solver calls and a very large trace output.  When what failed is an assert!/assertion of the harness
+    # or the library (not one of Kani's default checks), the re-run drops the default checks.
+    only_asserts = bool(r.get("failed")) and all(".assertion." in (f.get("name") or "") for f in r["failed"])
+    mode = "lean" if only_asserts else spec.mode
+    res = kanirun.run_job(group, r["harness"], mode=mode, timeout_s=spec.timeout * 3, mem_gb=max(spec.mem + 6, 44), fs=spec.fs,
                           playback=True)
+    if not res.get("playback_srcs") and mode != spec.mode:
+        res = kanirun.run_job(group, r["harness"], mode=spec.mode, timeout_s=spec.timeout * 3, mem_gb=max(spec.mem + 6, 44), fs=spec.fs,
+                              playback=True)
     srcs = res.get("playback_srcs") or []
     if not srcs:
         return {"reproduced": False, "detail": "Kani produced no concrete playback test (class=%s)" % res["class"], "path": None}
